@@ -75,6 +75,11 @@ func init() {
 		"A": func(e *cenv) { e.update("A", []string{"x"}, "ok"); e.update("A2", []string{"y"}, "ok") },
 		"B": func(e *cenv) { e.stats("B"); e.view("B2", []string{"x", "y"}); e.stats("B3") },
 	}, []string{"A", "B"})
+	mc.Registry["u7"] = uDriver(map[string]func(e *cenv){
+		"A": func(e *cenv) { e.update("A", []string{"x"}, "iofail") },
+		"B": func(e *cenv) { e.update("B", []string{"x", "y"}, "ok"); e.update("B2", []string{"y"}, "ok") },
+		"C": func(e *cenv) { e.view("C", []string{"x", "y"}) },
+	}, []string{"A", "B", "C"})
 	mc.Registry["u6"] = func(param string) mc.Driver {
 		ps, flt := parseParam(param)
 		return func(s *vsync.Session) mc.Outcome {
@@ -182,8 +187,9 @@ func C03(tier string) int {
 			{Name: "u4", Params: ps[:1], Quick: 2, Thorough: 3},
 			{Name: "u5", Params: ps[:1], Quick: 2, Thorough: 3},
 			{Name: "u6", Params: ps[:1], Quick: 2, Thorough: 3},
+			{Name: "u7", Params: ps, Quick: 2, Thorough: 3},
 		},
-		Rule: "stateless depth-first exploration of every schedule of 2-3 logical threads (Update / View / manual Begin-Rollback-Commit / Stats / Close bodies on two colliding counter keys) with at most the stated number of preemptions; scheduling points before every lock acquire, after every release, at every channel/once operation and at every I/O call of the real code; each execution is judged by the serial-replay oracle (ids consecutive, every read explained by the serial order, failed bodies leave no trace, real-time order, single writer) and by the scheduler's deadlock verdict; a distinct case is a distinct observation log",
+		Rule: "stateless depth-first exploration of every schedule of 2-3 logical threads (Update (committing, returning an error, panicking, failing at its first sync) / View / manual Begin-Rollback-Commit / Stats / Close bodies on two colliding counter keys) with at most the stated number of preemptions; scheduling points before every lock acquire, after every release, at every channel/once operation and at every I/O call of the real code; each execution is judged by the serial-replay oracle (ids consecutive, every read explained by the serial order, failed bodies leave no trace, real-time order, single writer) and by the scheduler's deadlock verdict; a distinct case is a distinct observation log",
 		Assumptions: []string{"data-race freedom is not decided by the cooperative scheduler: auxiliary free-running -race pass (aux_race_pass) covers the same driver bodies",
 			"go memory model effects beyond sequential consistency are not modelled"},
 		Quick: 100 * time.Second, Thorough: 25 * time.Minute,
